@@ -1266,6 +1266,10 @@ func (r *readerExt) consumed(n *Term) *Term {
 	if r.size == 0 {
 		return nil
 	}
+	// the whole source fits the buffer: the first fill takes everything, the buffer end is the source end
+	if k, ok := concreteInt(r.src.len); ok && k <= r.size {
+		return r.src.len
+	}
 	buffered := mkBin(OpSub, r.bufEnd, r.pos)
 	rest := mkBin(OpSub, n, buffered)
 	direct := mkCmp(OpUle, c64(r.size), rest)
